@@ -46,6 +46,44 @@ func dumpTree(n ast.Vertex, o dumpOpts) (string, *obs.Panic) {
 	return buf.String(), p
 }
 
+// One Dumper may be used for many trees (Dump can be called again): the worker keeps one long-lived dumper
+// per option set, writing through a retargetable writer, and half of the parsed-tree cases go through them —
+// whatever a dumper remembers from the trees it has seen shows as a difference from the tree in hand.
+type c16Writer struct{ buf *bytes.Buffer }
+
+func (w *c16Writer) Write(b []byte) (int, error) { return w.buf.Write(b) }
+
+var c16Long = map[dumpOpts]*struct {
+	w *c16Writer
+	d *dumper.Dumper
+}{}
+
+func dumpTreeLongLived(n ast.Vertex, o dumpOpts) (string, *obs.Panic) {
+	e := c16Long[o]
+	if e == nil {
+		w := &c16Writer{}
+		d := dumper.NewDumper(w)
+		if o.tok {
+			d = d.WithTokens()
+		}
+		if o.pos {
+			d = d.WithPositions()
+		}
+		e = &struct {
+			w *c16Writer
+			d *dumper.Dumper
+		}{w, d}
+		c16Long[o] = e
+	}
+	var buf bytes.Buffer
+	e.w.buf = &buf
+	p := obs.Try(func() { e.d.Dump(n) })
+	if p != nil {
+		delete(c16Long, o) // a dumper interrupted by a panic is not used again
+	}
+	return buf.String(), p
+}
+
 type c16cmp struct {
 	o     dumpOpts
 	fails []string // "<kind>.<slot>|<class>" signatures
@@ -346,8 +384,19 @@ func (c *c16cmp) node(e goast.Expr, n ast.Vertex, slot string) {
 
 // c16Check dumps the tree under every option set, reads the dump back and compares.
 func c16Check(c *core.Ctx, n ast.Vertex, w core.Witness) (lits int) {
+	return c16CheckWith(c, n, w, false)
+}
+
+func c16CheckWith(c *core.Ctx, n ast.Vertex, w core.Witness, longLived bool) (lits int) {
 	for _, o := range c16Opts {
-		out, p := dumpTree(n, o)
+		out, p := "", (*obs.Panic)(nil)
+		if longLived {
+			out, p = dumpTreeLongLived(n, o)
+			w = w.With("dumper", "one Dumper used for many trees")
+			c.Add("dumps_by_a_long_lived_dumper", 1)
+		} else {
+			out, p = dumpTree(n, o)
+		}
 		if p != nil {
 			c.Violation(p.Sig, "dumper panicked ("+o.String()+"): "+p.Msg, w.With("options", o.String()))
 			continue
@@ -392,7 +441,7 @@ func numStrip(s string) string {
 func init() {
 	core.Register(&core.Check{
 		ID:   "C16",
-		Rule: "cases = G5 synthetic nodes: every node kind of ast.Visitor x slot subsets (all 2^k for k<=12, else all single/double toggles + PRNG subsets), marker values incl. bytes that need quoting, unique positions, x 4 option sets  ++  parsed trees of corpus/hostile inputs x 4 option sets; non-trivial = at least one composite literal read back and compared; distinct by (kind, subset) / input bytes",
+		Rule: "cases = G5 synthetic nodes: every node kind of ast.Visitor x slot subsets (all 2^k for k<=12, else all single/double toggles + PRNG subsets), marker values incl. bytes that need quoting, unique positions, x 4 option sets  ++  parsed trees of corpus/hostile inputs x 4 option sets, half of them dumped by long-lived dumpers that have dumped other trees before; non-trivial = at least one composite literal read back and compared; distinct by (kind, subset) / input bytes",
 		Assumptions: []string{
 			"go/parser accepting the text is the meaning of 'syntactically valid Go composite literal'",
 			"labels: Go field name, except []byte values which the property says are labelled Val; empty lists may be shown or omitted",
@@ -430,7 +479,7 @@ func c16Input(c *core.Ctx, src []byte, ver string) {
 	if pr.Panic != nil || pr.Root == nil {
 		return // C01's business
 	}
-	if c16Check(c, pr.Root, core.W(src, ver)) > 4 {
+	if c16CheckWith(c, pr.Root, core.W(src, ver), len(src)%2 == 0) > 4 {
 		c.NonTrivial(src, []byte(ver))
 	}
 	obs.Walk(pr.Root, func(n, _ ast.Vertex, _ string, _ int) bool { c.Cover("parsed_kinds", obs.Kind(n)); return true })
